@@ -14,11 +14,28 @@ ASSUMPTIONS = [
 
 GROUP = Group("driver-stub", name="driver-stub", no_default_features=False, rustflags="--cfg compio_rs_compio_verif",
               zflags=("restrict-vtable", "stubbing"), jobs=6, mem_gb=12, timeout_s=900, stubbed=False)
-PLAN = [(GROUP, {"quick": ['c02_q_'], "thorough": ["c02_t_"]})]
+PLAN = [(GROUP, {"quick": ['c02_q_', 'c05_q_cancel_token'], "thorough": ["c02_t_"]})]
+
+
+FDQ_ASSUMPTIONS = [
+    "polling driver, per-descriptor interest queues: FdQueue::{event, pop_interest, push_back_interest, push_front_interest, remove} "
+    "interpreted from MIR from every state of <= 2 queued readers and <= 2 queued writers, event readiness flags symbolic; "
+    "VecDeque = bounded FIFO",
+    "outside: the registry (HashMap<RawFd, FdQueue>), the poller (epoll/kqueue) itself, multi-descriptor operations (splice), "
+    "the blocking-pool and AIO paths",
+]
 
 
 def run(tier):
-    return kaniprop.run("C02", tier, PLAN, ASSUMPTIONS)
+    import sys, os
+    sys.path.insert(0, os.path.join(os.path.dirname(os.path.abspath(__file__)), "..", "mirsym"))
+    import multiprop
+    import mirprop
+    from fdqplan import FdqPlan
+    return multiprop.run("C02", tier, [
+        ("key layer (kani)", lambda: kaniprop.run("C02", tier, PLAN, ASSUMPTIONS)),
+        ("polling driver interest queues (mirsym)", lambda: mirprop.run("C02", tier, FdqPlan(), FDQ_ASSUMPTIONS)),
+    ])
 
 
 def replay(path):
